@@ -331,7 +331,7 @@ def fault_stages(tier):
 
 
 def c07_stages(tier):
-    st = [AT('arith-q', 'MC_AffTree_arith_q.cfg'), AT('arithaff-q', 'MC_AffTree_arithaff_q.cfg'), AT('arith-deep', 'MC_AffTree_arith_deep.cfg'),
+    st = [AT('arith-q', 'MC_AffTree_arith_q.cfg'), AT('arithaff-q', 'MC_AffTree_arithaff_q.cfg'), AT('arith-deep', 'MC_AffTree_arith_deep.cfg'), AT('arith-k4', 'MC_AffTree_arith_k4.cfg'),
           # operands that carry cached feasibility states from an earlier elimination
           HS('prunea-q', 'MC_AffTree_prunea_q.cfg')]
     if tier == 'thorough':
